@@ -36,11 +36,11 @@ def base_cfg(size, imm, closure, limit, content=0):
     }
 
 
-def execute(cfg, plan, max_expiries):
+def execute(cfg, plan, max_expiries, pacing=None):
     """Returns (world, runner, outcome, internal_error) -- caller closes the world."""
     w = World(cfg)
     mon = C01Monitor(w)
-    r = Runner(w, plan=plan, max_expiries=max_expiries, max_rounds=3000)
+    r = Runner(w, plan=plan, max_expiries=max_expiries, max_rounds=3000, pacing=pacing)
     err = None
     try:
         w.put()
@@ -52,10 +52,10 @@ def execute(cfg, plan, max_expiries):
 
 
 @functools.lru_cache(maxsize=None)
-def emission_count(cfg_key, faults_key):
+def emission_count(cfg_key, faults_key, pacing_key=()):
     cfg = dict(cfg_key)
     plan = EnumPlan(dict(faults_key))
-    w, r, outcome, err, _ = execute(cfg, plan, 30)
+    w, r, outcome, err, _ = execute(cfg, plan, 30, dict(pacing_key) or None)
     n = r.emit_idx
     w.close()
     return n
@@ -128,6 +128,22 @@ def gen_cases(tier, seed):
                             for p2 in range(p1 + 1, n1 + 1):
                                 for k2 in kinds2:
                                     cases.append({"cfg": cfg, "faults": {str(p1): k1, str(p2): k2}, "K": 2})
+    # other pacings of the two entities (the sender emits several PDUs before it looks at what came back, the receiver works in bursts):
+    # every single fault, and every pair of losses on the 13 byte file
+    for pacing in ({"src_calls": 3}, {"src_calls": 5, "dst_calls": 2}, {"dst_calls": 3}):
+        pk = tuple(sorted(pacing.items()))
+        for size in (5, 13):
+            for imm in (True, False):
+                cfg = base_cfg(size, imm, bool(size % 2) != imm, 3)
+                n = emission_count(key_of(cfg), (), pk)
+                for pos in range(n + 1):
+                    for kind in KINDS:
+                        cases.append({"cfg": cfg, "faults": {str(pos): kind}, "K": 1, "pacing": pacing})
+                if size == 13 and (tier == "thorough" or "src_calls" in pacing):
+                    for p1 in range(n):
+                        n1 = emission_count(key_of(cfg), ((p1, "drop"),), pk)
+                        for p2 in range(p1 + 1, n1 + 1):
+                            cases.append({"cfg": cfg, "faults": {str(p1): "drop", str(p2): "drop"}, "K": 2, "pacing": pacing})
     rng = random.Random(77 + seed)
     for i in range(nrand):
         K = rng.choice([2, 3, 4, 5, 6])
@@ -141,6 +157,8 @@ def gen_cases(tier, seed):
             cfg["maxpkt"] = rng.choice([32, 36, 40, 48]) if not cfg["crc"] else rng.choice([34, 42, 50])
         cases.append({"cfg": cfg, "random": {"seed": seed * 1_000_003 + i, "K": K,
                                              "p": {"drop": 0.08, "dup": 0.04, "delay": 0.05, "quiet": 0.02, "late": 0.02, "race": 0.02}}, "K": K})
+        if i % 3 == 0:
+            cases[-1]["pacing"] = rng.choice([{"src_calls": 3}, {"src_calls": 6}, {"dst_calls": 3}, {"src_calls": 2, "dst_calls": 2}, {"dst_idle": 2}])
     return cases
 
 
@@ -152,7 +170,7 @@ def run_case(case):
     else:
         rp = case["random"]
         plan = RandomPlan(rp["seed"], rp["p"], max_faults=rp["K"])
-    w, r, outcome, err, mon = execute(cfg, plan, 6 * limit + 20)
+    w, r, outcome, err, mon = execute(cfg, plan, 6 * limit + 20, case.get("pacing"))
     try:
         viol = []
         if err is not None:
@@ -169,7 +187,7 @@ def run_case(case):
             v["dst_step"] = w.D.h.step.name
         obs = {"faults_applied": len(applied), "expiries": r.expiries, "shell_acks": r.shell_acks,
                "proto_exc_caught": len(r.proto_exc), "success_reports_checked": mon.success_reports,
-               "fault_callbacks": len(w.log.of("fh")), f"K{case['K']}_cases": 1}
+               "fault_callbacks": len(w.log.of("fh")), f"K{case['K']}_cases": 1, "cases_with_other_pacing": int(bool(case.get("pacing")))}
         for a in plan.applied:
             kind = a[2].split("(")[0].split("[")[0]
             obs[f"fault_{a[1].rstrip('0123456789')}_{kind}"] = obs.get(f"fault_{a[1].rstrip('0123456789')}_{kind}", 0) + 1
